@@ -1134,7 +1134,13 @@ class HfProtocol(utils.EventEmitter):
             if not self._slc_initialized:
                 await self.initiate_slc()
             while True:
-                await self.handle_unsolicited()
+                try:
+                    await self.handle_unsolicited()
+                except HfProtocol.HfLoopTermination:
+                    raise
+                except Exception:
+                    # A malformed result code must not stop the loop
+                    logger.exception("error while handling unsolicited result")
         except HfProtocol.HfLoopTermination:
             logger.info('Loop terminated')
         except Exception:
